@@ -527,6 +527,25 @@ func (r *runner) record(o *observation) {
 	r.permAt = append(r.permAt, at)
 }
 
+// capExceeded returns the first observation at which some peer has more than cap active topics in
+// the incoming queue of ik's node (-1 if none), the peer's node and the count
+func (r *runner) capExceeded(ik instKey, cap int) (int, int, int) {
+	for i, o := range r.obs {
+		perPeer := map[int]int{}
+		for j, k := range r.instID[ik] {
+			if o.seen[ik][j][1]&2 != 0 {
+				perPeer[r.c.Reqs[k-1].From]++
+			}
+		}
+		for m := 0; m < nNodes; m++ {
+			if perPeer[m] > cap {
+				return i, m, perPeer[m]
+			}
+		}
+	}
+	return -1, 0, 0
+}
+
 // bounded wait for an API call that may legitimately block (requestor Cancel waits for the worker)
 func bounded(f func()) {
 	ch := make(chan struct{})
@@ -1057,6 +1076,53 @@ func directedQueuedEnd(how string, workers int) qcase {
 	return c
 }
 
+// directedPeerCap builds the family "per-peer limit 1 on node 1, more workers than that; request A of
+// peer node 0 is paused (request hook / API / never: the control), resumed and held at its
+// outgoing-block gate while running; request B of the same peer arrives (its gate closed, so that it
+// would be seen held if it were popped): B must stay Queued/pending while A is active; release; finish".
+func directedPeerCap(how string, workers int) qcase {
+	var c qcase
+	for n := 0; n < nNodes; n++ {
+		c.Workers[n] = [2]int{4, 1}
+	}
+	c.Workers[1][1] = workers
+	c.PerPeer[1] = 1
+	add := func(kind string, k, n int) { c.Ops = append(c.Ops, op{Kind: kind, K: k, N: n}) }
+	a := reqSpec{From: 0, To: 1, Len: 6, RespHook: "ok", RespGate: 0, ReqGate: -1, SentGate: -1}
+	switch how {
+	case "hook":
+		a.RespHook = "pause"
+		c.Reqs = []reqSpec{a}
+		add("start", 1, 0)
+		add("awaitRespState", 1, 3)
+		add("respUnpause", 1, 0)
+	case "api":
+		a.RespGate = 1
+		c.Reqs = []reqSpec{a}
+		add("start", 1, 0)
+		add("awaitRespState", 1, 2)
+		add("respPause", 1, 0)
+		add("respAllow", 1, 2)
+		add("awaitRespState", 1, 3)
+		add("respClose", 1, 0)
+		add("respUnpause", 1, 0)
+	default: // "never"
+		c.Reqs = []reqSpec{a}
+		add("start", 1, 0)
+	}
+	add("awaitRespState", 1, 2) // A running, held at its gate
+	c.Reqs = append(c.Reqs, reqSpec{From: 0, To: 1, Len: 3, RespHook: "ok", RespGate: 0, ReqGate: -1, SentGate: -1},
+		reqSpec{From: 2, To: 1, Len: 2, RespHook: "ok", RespGate: 0, ReqGate: -1, SentGate: -1})
+	add("start", 2, 0)          // same peer: must wait behind A
+	add("start", 3, 0)          // another peer: may run (an idle worker exists)
+	add("awaitRespState", 3, 2) // ... and does
+	add("respAllow", 3, -1)
+	add("respAllow", 1, 1) // A one block further, B still behind it
+	add("respAllow", 1, -1)
+	add("respAllow", 2, -1)
+	return c
+}
+
 func tagsOf(c qcase) []string {
 	seen := map[string]bool{}
 	var t []string
@@ -1134,6 +1200,16 @@ func run(c *drv.Ctx) error {
 			for _, b := range r.bad {
 				w.Violation(idx, b, "unknown-id")
 			}
+			// observation-level clause (the Coq model leaves pops free and has no per-peer limit): with
+			// MaxInProgressIncomingRequestsPerPeer = c configured on this node, no peer ever has more than
+			// c ACTIVE topics in the incoming queue (every task graphsync pushes has Work 1, and PopTasks
+			// refuses a peer whose active work has reached the limit); holds in every state, quiescent or not
+			if cap := qc.PerPeer[ik.node]; ik.resp && cap > 0 {
+				if at, peerN, n := r.capExceeded(ik, cap); at >= 0 {
+					w.Violation(idx, fmt.Sprintf("per-peer limit %d exceeded: node %d has %d active topics for peer node %d at observation %d", cap, ik.node, n, peerN, at), "per-peer-cap")
+					w.Stats.Distribution["go:per-peer-cap"]++
+				}
+			}
 		}
 		return nil
 	}
@@ -1170,7 +1246,18 @@ func run(c *drv.Ctx) error {
 			return err
 		}
 	}
+	// directed family (both tiers): per-peer limit with a resumed response, 3 workers (2-worker variants
+	// are corpus cases)
+	for _, how := range []string{"hook", "api", "never"} {
+		if err := doCase(directedPeerCap(how, 3), "directed"); err != nil {
+			return err
+		}
+	}
 	if os.Getenv("D_QUIESCE_DUMP") != "" {
+		for _, how := range []string{"hook", "api", "never"} {
+			b, _ := json.Marshal(directedPeerCap(how, 2))
+			_ = os.WriteFile(os.Getenv("D_QUIESCE_DUMP")+"/peer_cap_"+how+".json", b, 0o644)
+		}
 		// write the 1-worker variants of the directed families as corpus files
 		for _, how := range []string{"respCancel", "unpauseThenCancel", "pauseThenCancel", "reqCancelCtx", "reqCancelApi"} {
 			b, _ := json.Marshal(directedQueuedEnd(how, 1))
